@@ -9,7 +9,8 @@
 EXTENDS PSMachine, Json, CSV
 
 CONSTANTS Tier,          \* "quick" | "thorough"
-          Family,        \* "ctl" | "lookup"
+          Family,        \* "ctl" | "lookup" | "budget"
+          MaxBudget,     \* budgets 1..MaxBudget are explored in the "budget" family
           OutFile, BaseFile, StepBound
 
 \* ---- tokens are written as strings in the grammar and mapped to values here
@@ -65,12 +66,14 @@ LookAtoms == { <<"/x", "1", "def">>, <<"/x", "2", "def">>, <<"3", "dict", "begin
                <<"{", "1", "2", "add", "}", "bind", "/p", "exch", "def">>, <<"p">> }
 LookLen == IF Tier = "quick" THEN 4 ELSE 5
 
-VARIABLES s, stim, phase
-vars == <<s, stim, phase>>
+VARIABLES s, stim, phase,
+          u        \* "budget" family: the same program running without a budget, in lock step
+vars == <<s, stim, phase, u>>
 
 Init == /\ phase = "pick1"
         /\ stim = [outer |-> "none", pre |-> <<>>, mid |-> <<>>, post |-> <<>>, n |-> 0]
         /\ s = FreshState(<<>>, 0)
+        /\ u = FreshState(<<>>, 0)
 
 Program(st) == LET inner == st.pre \o st.mid \o st.post
                IN IF st.outer = "none" THEN inner ELSE Wrap(st.outer, inner)
@@ -79,36 +82,54 @@ PickCtl ==
     /\ Family = "ctl"
     /\ \/ /\ phase = "pick1"
           /\ \E o \in Outer, c \in Ctl1 : stim' = [stim EXCEPT !.outer = o, !.mid = c]
-          /\ phase' = "pick2" /\ UNCHANGED s
+          /\ phase' = "pick2" /\ UNCHANGED <<s, u>>
        \/ /\ phase = "pick2"
           /\ \E a \in Pre, b \in Post : stim' = [stim EXCEPT !.pre = a, !.post = b]
-          /\ phase' = "start" /\ UNCHANGED s
+          /\ phase' = "start" /\ UNCHANGED <<s, u>>
 PickLook ==
     /\ Family = "lookup"
     /\ phase = "pick1"
     /\ \/ /\ stim.n < LookLen
           /\ \E a \in LookAtoms : stim' = [stim EXCEPT !.mid = @ \o a, !.n = @ + 1]
-          /\ UNCHANGED <<phase, s>>
+          /\ UNCHANGED <<phase, s, u>>
        \/ /\ stim.n > 0
-          /\ phase' = "start" /\ UNCHANGED <<stim, s>>
+          /\ phase' = "start" /\ UNCHANGED <<stim, s, u>>
+PickBudget ==
+    /\ Family = "budget"
+    /\ phase = "pick1"
+    /\ \E o \in {"none", "loop", "repeat2"}, c \in Ctl1, b \in 1..MaxBudget :
+          stim' = [stim EXCEPT !.outer = o, !.mid = c, !.n = b]
+    /\ phase' = "start" /\ UNCHANGED <<s, u>>
 Start == /\ phase = "start"
          /\ phase' = "run"
-         /\ s' = FreshState(Toks(Program(stim)), 0)
+         /\ s' = FreshState(Toks(Program(stim)), IF Family = "budget" THEN stim.n ELSE 0)
+         /\ u' = IF Family = "budget" THEN FreshState(Toks(Program(stim)), 0) ELSE u
          /\ UNCHANGED stim
 Run == /\ phase = "run" /\ s.status = "running"
        /\ s' = IF s.nops > StepBound THEN Skip(s) ELSE Step(s)
+       /\ u' = IF Family = "budget" /\ u.status = "running" THEN Step(u) ELSE u
        /\ UNCHANGED <<stim, phase>>
-Next == PickCtl \/ PickLook \/ Start \/ Run
+Next == PickCtl \/ PickLook \/ PickBudget \/ Start \/ Run
 
-Vector == [prog |-> Toks(Program(stim)), init |-> <<>>, maxops |-> 0,
+Vector == [prog |-> Toks(Program(stim)), init |-> <<>>, maxops |-> s.maxops,
            status |-> s.status, errs |-> s.errs, ost |-> s.ost, dst |-> s.dst,
-           heap |-> s.heap.c, nheap |-> s.heap.n, steps |-> s.nops]
+           heap |-> s.heap.c, nheap |-> s.heap.n, nops |-> s.nops, steps |-> s.nops]
 Emit == (phase = "run" /\ s.status \in {"done", "error"}) => CSVWrite("%1$s", <<ToJson(Vector)>>, OutFile)
 ASSUME JsonSerialize(BaseFile, [heap |-> FreshHeap, nfixed |-> NFixed])
 
 (***************************************************************************)
 (* Design-level properties of the machine, checked on every behaviour.     *)
 (***************************************************************************)
+\* The budget is transparent: until it strikes, the budgeted run is in the very state of
+\* the unbudgeted one; it strikes exactly when the count passes the budget, and the
+\* count never passes budget + 1.
+BudgetTransparent ==
+    (Family = "budget" /\ phase = "run") =>
+        /\ (s.status \in {"running", "done"} \/ (s.status = "error" /\ "budget" \notin s.errs))
+                => s = [u EXCEPT !.maxops = s.maxops]
+        /\ s.nops <= s.maxops + 1
+        /\ (s.status = "error" /\ s.errs = {"budget"}) => (s.nops = s.maxops + 1 /\ u.nops >= s.maxops)
+        /\ (u.status = "done" /\ u.nops <= s.maxops) => s.status # "error"
 Inv == /\ StackBounded(s) /\ DictStackBounded(s) /\ DepthBounded(s) /\ DictStackBase(s)
        /\ s.status = "error" => s.errs # {}
 \* exit leaves exactly the innermost enclosing loop: after the step the continuation
